@@ -46,6 +46,7 @@ def _case(draw, tier):
     c["indices"] = draw(indices_for(len(c["trains"])))
     c["normalize"] = draw(st.booleans())
     c["compiled"] = draw(st.booleans())
+    c["prime"] = draw(st.sampled_from([None, None, None, "wider", "same"]))
     return c
 
 
@@ -172,6 +173,8 @@ def run_case(case, ctx):
     if case["mrts"] == "auto" and case["indices"] is not None:
         return _relational_only(case, ctx)
     sts = ps.trains(case)
+    ps.prime(ctx, case, sts, (pyspike.spike_train_order_profile, pyspike.spike_train_order),
+             pair_only=(pyspike.spike_directionality,))
     trs, T0, T1, m, mt = _model(case)
     sel = _sel(case)
     kw = ps.kw(case)
